@@ -566,9 +566,7 @@ impl Store {
 
         // ... and if it was a context registration, it no longer is one
         if let Some(old) = &replaced {
-            if old.topic == "xs.context"
-                && old.context_id == ZERO_CONTEXT
-                && old.id != ZERO_CONTEXT
+            if old.topic == "xs.context" && old.context_id == ZERO_CONTEXT && old.id != ZERO_CONTEXT
             {
                 self.contexts.write().unwrap().remove(&old.id);
             }
@@ -679,7 +677,14 @@ impl Store {
     /// Raw contents of the three partitions and the context registry:
     /// (stream key/value pairs, idx_topic keys, idx_context keys, contexts).
     #[allow(clippy::type_complexity)]
-    pub fn verif_dump(&self) -> (Vec<(Vec<u8>, Vec<u8>)>, Vec<Vec<u8>>, Vec<Vec<u8>>, Vec<Scru128Id>) {
+    pub fn verif_dump(
+        &self,
+    ) -> (
+        Vec<(Vec<u8>, Vec<u8>)>,
+        Vec<Vec<u8>>,
+        Vec<Vec<u8>>,
+        Vec<Scru128Id>,
+    ) {
         let stream = self
             .frame_partition
             .iter()
@@ -687,7 +692,11 @@ impl Store {
             .map(|(k, v)| (k.to_vec(), v.to_vec()))
             .collect();
         let idx_topic = self.idx_topic.keys().map(|k| k.unwrap().to_vec()).collect();
-        let idx_context = self.idx_context.keys().map(|k| k.unwrap().to_vec()).collect();
+        let idx_context = self
+            .idx_context
+            .keys()
+            .map(|k| k.unwrap().to_vec())
+            .collect();
         let mut contexts: Vec<_> = self.contexts.read().unwrap().iter().cloned().collect();
         contexts.sort();
         (stream, idx_topic, idx_context, contexts)
